@@ -183,6 +183,9 @@ func (c *SpecCtx) tr(e ast.Expr) SpecVal {
 		case token.STRING:
 			s, _ := strconv.Unquote(x.Value)
 			return SpecVal{T: ft.d.strLit(s), Typ: stringType, Sort: "Str"}
+		case token.FLOAT:
+			v := constant.MakeFromLiteral(x.Value, token.FLOAT, 0)
+			return SpecVal{T: ft.floatLit(v), Typ: types.Typ[types.Float64], Sort: "F64"}
 		case token.CHAR:
 			s, _ := strconv.Unquote(x.Value)
 			return SpecVal{T: num(int64([]rune(s)[0])), Typ: intType, Sort: "Int"}
@@ -278,6 +281,20 @@ func (c *SpecCtx) ident(x *ast.Ident) SpecVal {
 	}
 	if sf, ok := ft.eng.cons.Specs[x.Name]; ok && len(sf.PNames) == 0 {
 		return c.specCall(sf, nil)
+	}
+	// dot-imported names (import . "pkg/ast"): an exported object of exactly one imported package
+	if c.pkg != nil && ast.IsExported(x.Name) {
+		var found types.Object
+		n := 0
+		for _, imp := range ft.eng.dotImports[c.pkg.Path()] {
+			if o := imp.Scope().Lookup(x.Name); o != nil {
+				found = o
+				n++
+			}
+		}
+		if n == 1 {
+			return c.object(found)
+		}
 	}
 	c.fail("unknown identifier %s", x.Name)
 	return SpecVal{}
@@ -382,7 +399,9 @@ func (c *SpecCtx) selector(x *ast.SelectorExpr) SpecVal {
 	}
 	if _, isSlice := cur.Typ.Underlying().(*types.Slice); isSlice && !strings.Contains(cur.T, "!q") && !strings.Contains(cur.T, "!r") && !strings.Contains(cur.T, "!a") {
 		// heap well-formedness: a slice stored in a field has 0 <= len <= cap (ground terms only)
-		ft.assume("true", and(app("<=", "0", app("sl-len", cur.T)), app("<=", app("sl-len", cur.T), app("sl-cap", cur.T)), app("<=", app("sl-cap", cur.T), "4611686018427387904")))
+		ft.keySort("$next", "Int")
+		ft.assume("true", and(app("<=", "0", app("sl-len", cur.T)), app("<=", app("sl-len", cur.T), app("sl-cap", cur.T)), app("<=", app("sl-cap", cur.T), "1152921504606846976"),
+			app("<=", "0", app("sl-base", cur.T)), app("<", app("sl-base", cur.T), ft.get(c.st, "$next"))))
 	}
 	return cur
 }
@@ -574,6 +593,35 @@ func (c *SpecCtx) call(x *ast.CallExpr) SpecVal {
 			}
 		}
 		c.fail("ref(): no allocated local %s at this point", id.Name)
+	case "local":
+		// local(name): the Go local of that name even where a result variable of the same name exists
+		id, ok := x.Args[0].(*ast.Ident)
+		if !ok || c.local == nil {
+			c.fail("local(): needs an identifier and a function body context")
+		}
+		v, found, err := c.local(c, id.Name)
+		if err != nil {
+			c.fail("%v", err)
+		}
+		if !found {
+			c.fail("unknown identifier %s", id.Name)
+		}
+		return v
+	case "comparable":
+		v := c.tr(x.Args[0])
+		return bv(ft.comparableDyn(v.T))
+	case "wrap64":
+		v := c.tr(x.Args[0])
+		return SpecVal{T: app("wrap64", v.T), Typ: types.Typ[types.Int64], Sort: "Int"}
+	case "feq":
+		a, b := c.tr(x.Args[0]), c.tr(x.Args[1])
+		return bv(app(ft.ufun("feq", []Sort{"F64", "F64"}, "Bool"), a.T, b.T))
+	case "fneg":
+		a := c.tr(x.Args[0])
+		return SpecVal{T: app(ft.ufun("fneg", []Sort{"F64"}, "F64"), a.T), Typ: a.Typ, Sort: "F64"}
+	case "strlt":
+		a, b := c.tr(x.Args[0]), c.tr(x.Args[1])
+		return bv(app(ft.ufun("strlt", []Sort{"Str", "Str"}, "Bool"), a.T, b.T))
 	case "panicking":
 		ft.keySort("$panicking", "Bool")
 		return SpecVal{T: ft.get(c.st, "$panicking"), Typ: boolType, Sort: "Bool"}
